@@ -49,18 +49,37 @@ def suite_passes():
 if "--recheck" in sys.argv:
     dst = f"/verif/seeded/{seed_id}"
     meta = json.load(open(os.path.join(dst, "meta.json")))
-    assert sh("git -C /repo status --porcelain --untracked-files=no").stdout.strip() == "", "/repo not clean"
-    ap = sh(f"git -C /repo apply {dst}/patch.diff")
-    assert ap.returncode == 0, ap.stderr
-    try:
-        chk = sh(f"cd /verif && VERIF_NO_EVIDENCE=1 ./check {prop} --tier quick")
-    finally:
-        sh("git -C /repo checkout -- .")
+    if os.environ.get("SEED_WT"):
+        rwt = os.environ.get("SEED_WT_DIR", wt)
+        assert sh(f"git -C {rwt} status --porcelain --untracked-files=no").stdout.strip() == "", "worktree not clean"
+        sh(f"git -C {rwt} checkout -q --detach $(git -C /repo rev-parse HEAD)")
+        ap = sh(f"git -C {rwt} apply {dst}/patch.diff")
+        if ap.returncode != 0:
+            meta["check_result"] = {"cmd": "patch no longer applies to the current tree", "exit": None, "signatures": [],
+                                    "caught": None}
+            meta["valid_on_current_tree"] = False
+            json.dump(meta, open(os.path.join(dst, "meta.json"), "w"), indent=1)
+            print("rechecked", seed_id, "PATCH DOES NOT APPLY")
+            sys.exit(0)
+        try:
+            chk = sh(f"cd /verif && VERIF_REPO={rwt} VERIF_NO_EVIDENCE=1 ./check {prop} --tier quick")
+        finally:
+            sh(f"git -C {rwt} checkout -- .")
+    else:
+        assert sh("git -C /repo status --porcelain --untracked-files=no").stdout.strip() == "", "/repo not clean"
+        ap = sh(f"git -C /repo apply {dst}/patch.diff")
+        assert ap.returncode == 0, ap.stderr
+        try:
+            chk = sh(f"cd /verif && VERIF_NO_EVIDENCE=1 ./check {prop} --tier quick")
+        finally:
+            sh("git -C /repo checkout -- .")
     sigs = sorted({ln.split(" :: ")[0].replace("violation: ", "") for ln in chk.stdout.splitlines() if ln.startswith("violation: ")})
     meta.setdefault("check_history", []).append(meta["check_result"])
     meta["check_result"] = {"cmd": f"./check {prop} --tier quick", "exit": chk.returncode, "signatures": sigs[:10],
                             "caught": chk.returncode == 1,
-                            "verif_commit": sh("git -C /verif rev-parse --short HEAD").stdout.strip() + "+"}
+                            "verif_commit": sh("git -C /verif rev-parse --short HEAD").stdout.strip() + "+",
+                            "repo_head": sh("git -C /repo rev-parse --short HEAD").stdout.strip(),
+                            "via": "VERIF_REPO=scratch worktree" if os.environ.get("SEED_WT") else "patch applied to /repo"}
     json.dump(meta, open(os.path.join(dst, "meta.json"), "w"), indent=1)
     print("rechecked", seed_id, "exit", chk.returncode, sigs[:4])
     sys.exit(0)
